@@ -75,7 +75,7 @@ Value& OpPUSExpression::value(Context& ctx) const
       {
         if (a1.isNull() || a2.isNull())
           return LVAL2(Value(Value::type_integer), a1, a2);
-        Value val(Integer(*a1.integer() >> *a2.integer()));
+        Value val(Value::shiftRight(*a1.integer(), *a2.integer()));
         return LVAL2(val, a1, a2);
       }
       default:
